@@ -34,7 +34,9 @@ PROP = {'gen': ['base64'],
                'the implementation on every well-formed case outside the known class pid-corner '
                '(C11_model_meets_predicate_outside_known_classes). Audited but not counted: 7 lemmas (pigeonhole for placement ids, '
                'defect pins, the resolved id collision) and 7 non-vacuity examples. Constants regenerated from the source each run; '
-               'model tied to the code by the byte-for-byte correspondence run.',
+               'model tied to the code by the byte-for-byte correspondence run, which also compares the hash the crate reports for '
+               'every drawn view (crops and clones sharing one pixel buffer included) with the model of Surface::hash on that '
+               "view's pixels.",
  'level_note': 'Trusted: Coq kernel + vm_compute; translate/kitty.py, translate/tables.py; hand-written model validated by the '
                'correspondence run; Image/KittySpec.v as the reading of the kitty graphics protocol document; Surface::hash modelled '
                '(fnv-1a, Image/Fnv.v) and compared with the crate on every case. Hypotheses of C11_model_meets_predicate_...: no '
